@@ -34,11 +34,11 @@ MODES = ("auto", "dot", "slash")
 ALPHABET = ". / \\ [ ] ( ) ' \" & * = ! < > ~ ^ $ % + - , :".split(" ") + [" ", "a", "b", "1"]
 assert len(ALPHABET) == 27, len(ALPHABET)
 # non-ASCII characters with no case mapping, no digit value, not whitespace
-UNI = ["ß", "日", "\U0001F600", "·", "→", "Ж"]
+UNI = ["ß", "日", "\U0001F600", "·", "→", "Ж", "²", "①", "¹⁰"]
 TOKENS = ALPHABET + ["has_child(", "name()", "parent(", "max(", "min(", "unique(", "distinct(",
                      "=~", "!=", ">=", "<=", "==", "**", "&a", "[&a]", "['", "']", '["', '"]',
                      "\\.", "\\/", "\\[", "\\]", "\\ ", "\\\\", "/x/", "|x|", "[0]", "[1:2]", "[-1]",
-                     "[a=b]", "(a)", ")+(", ")-(", ")&(", "abc", "_", "0", "9", "\t", "\n", "x*y", "*x", "x*"]
+                     "[a=b]", "[²]", "[-①]", "(a)", ")+(", ")-(", ")&(", "abc", "_", "0", "9", "\t", "\n", "x*y", "*x", "x*"]
 
 
 def requests(s):
@@ -50,6 +50,25 @@ def requests(s):
         out.append("(pathstr %s %s)" % (m, h))
     out.append("(kwparams %s)" % h)
     return out
+
+
+RULE_NAMES = ["escape_next", "capturing_regex", "backslash", "space", "regex_delim", "anchor_mark",
+              "collector_operator", "must_be", "quote", "open_paren", "close_keyword", "close_collector",
+              "open_bracket", "search_operator", "nested_bracket", "close_bracket", "stray_close_bracket",
+              "separator", "append(default)"]
+
+
+def extra_requests(s):
+    # which rule of the model's chain fires at every character (coverage of the model's case structure)
+    return ["(rules auto true %s)" % hexs(s)]
+
+
+def model_stats(s, outs):
+    h = {}
+    for tok in outs[0].strip("()").split():
+        name = "rule%02d_%s" % (int(tok) + 1, RULE_NAMES[int(tok)]) if tok.isdigit() and int(tok) < len(RULE_NAMES) else "rule?" + tok
+        h[name] = h.get(name, 0) + 1
+    return h
 
 
 _ENV = {}
